@@ -175,6 +175,39 @@ Corollary C17_G2_cannot_occur :
 Proof. exact (fun w scanned ls n o => @g2_cannot_occur w scanned ls n o eq_refl). Qed.
 Print Assumptions C17_G2_cannot_occur.
 
+(* ODD sys.modules ENTRIES (None, an object without __dict__, a module whose attribute access raises
+   -- failed LazyLoader import --): entry kind ONoDict of the model.  All theorems above quantify over
+   worlds that contain such entries at any position of the scan order.  Explicitly: the visit of an
+   odd entry consumes nothing and selects no module glue, only what is pending as built-in for that
+   name; with a pending built-in it meets the hypothesis of C17_timely_builtin (so that built-in has
+   run when the extraction returns) and C17_at_most_once_builtin bounds it by one; the neighbours
+   are covered by C17_timely / C17_at_most_once.  A module whose _stackscope_install_glue_ is not
+   callable is an [OMod] whose glue raises (TypeError): C17_failure_is_warning. *)
+Theorem C17_odd_entry_is_skipped :
+  forall w t nm todo k s o,
+    obj_of w o = ONoDict -> m_get (mods s) nm = Some o ->
+    let s' := visit src_cfg w t nm todo k s in
+    popped s' = popped s /\ mods s' = mods s
+    /\ thr s' t = match m_get (pend s) nm with
+                  | Some f => PCall nm None (Some f) (Some o) todo k
+                  | None => PScan todo k
+                  end.
+Proof. exact (fun w t nm todo k s o => @odd_entry_visit src_cfg w t nm todo k s o eq_refl). Qed.
+Print Assumptions C17_odd_entry_is_skipped.
+
+Theorem C17_odd_entry_builtin_is_pending :
+  forall w s n o f,
+    obj_of w o = ONoDict -> m_get (mods s) n = Some o -> m_get (pend s) n = Some f -> pendingB w s n f.
+Proof. exact odd_entry_pendingB. Qed.
+Print Assumptions C17_odd_entry_builtin_is_pending.
+
+Example C17_odd_entries_example :
+  let r := crun src_cfg odd_world odd_hist (init odd_world true) in
+  map erase (rev (log (fst r))) =
+    [OCallM 0 0; OCallB 0 1; OCallM 3 3; OWarn true 3; OCallB 1 4; OWarn false 4; OCallM 5 5; ORet 0 true]
+  /\ pend (fst r) = [] /\ cache (fst r) = 7.
+Proof. exact odd_entries_are_skipped. Qed.
+
 (* Remaining gap (stated, not proved): liveness-style "the scanning thread completes" is proved for
    the thread running on its own (C17_failure_scan_completes); under interleaving no other thread
    can enter the locked region (C17_cache_invariant, gi_L1), and the safety consequences --
